@@ -7,6 +7,7 @@ INVARIANT ContractTotal
 INVARIANT ImplConforms
 INVARIANT InputNeverWritten
 INVARIANT Memo
+INVARIANT MemoAcrossDtypes
 INVARIANT DeterministicIgnoresRng
 INVARIANT StreamAccounting
 INVARIANT PropertyMemoMeansFreshSeed
